@@ -7,6 +7,7 @@
 #include <cmath>
 #include <cstdio>
 #include <cstdlib>
+#include <vector>
 
 //#include <gsl/gsl_matrix.h>
 //#include <gsl/gsl_blas.h>
@@ -73,6 +74,86 @@ bspline_deriv(const double *knots, double x, int i, int n, unsigned order)
 	return result;
 }
 
+/*
+ * The recursions below visit the same (i, n) pairs again and again: about 2^n
+ * calls for order n. For orders above PIECE_PLAIN_ORDER the value of every
+ * pair is computed once and remembered; the arithmetic, and with it the
+ * result, is the same.
+ */
+#define PIECE_PLAIN_ORDER 8
+
+namespace {
+
+struct piece_tables {
+	const double* knots;
+	double x;
+	int piece, i0, stride;
+	std::vector<double> value, deriv;
+	std::vector<unsigned char> have_value, have_deriv;
+	piece_tables(const double* knots, double x, int piece, int i0, int n):
+	knots(knots), x(x), piece(piece), i0(i0), stride(n+2),
+	value(size_t(n+1)*(n+2)), deriv(size_t(n+1)*(n+2)),
+	have_value(size_t(n+1)*(n+2), 0), have_deriv(size_t(n+1)*(n+2), 0) {}
+	size_t index(int i, int n) const { return (size_t(n)*stride + (i - i0)); }
+};
+
+double
+on_piece_remembered(piece_tables& t, int i, int n)
+{
+	const double* knots = t.knots;
+	const double x = t.x;
+	double result = 0;
+
+	if (n == 0)
+		return (i == t.piece ? 1.0 : 0.0);
+	if (t.piece < i || t.piece > i+n)
+		return 0.0;
+	if (t.have_value[t.index(i, n)])
+		return t.value[t.index(i, n)];
+
+	if (knots[i+n] != knots[i])
+		result += (x - knots[i])*on_piece_remembered(t, i, n-1) /
+		    (knots[i+n] - knots[i]);
+	if (knots[i+n+1] != knots[i+1])
+		result += (knots[i+n+1] - x)*on_piece_remembered(t, i+1, n-1) /
+		    (knots[i+n+1] - knots[i+1]);
+
+	t.value[t.index(i, n)] = result;
+	t.have_value[t.index(i, n)] = 1;
+	return result;
+}
+
+double
+deriv_on_piece_remembered(piece_tables& t, int i, int n, unsigned order)
+{
+	const double* knots = t.knots;
+	double result = 0;
+
+	if (n == 0 || t.piece < i || t.piece > i+n)
+		return 0.0;
+	/* (the derivative order belonging to a pair is fixed by n) */
+	if (t.have_deriv[t.index(i, n)])
+		return t.deriv[t.index(i, n)];
+
+	if (order <= 1) {
+		if (knots[i+n] != knots[i])
+			result += n * on_piece_remembered(t, i, n-1) / (knots[i+n] - knots[i]);
+		if (knots[i+n+1] != knots[i+1])
+			result -= n * on_piece_remembered(t, i+1, n-1) / (knots[i+n+1] - knots[i+1]);
+	} else {
+		if (knots[i+n] != knots[i])
+			result += n * deriv_on_piece_remembered(t, i, n-1, order-1) / (knots[i+n] - knots[i]);
+		if (knots[i+n+1] != knots[i+1])
+			result -= n * deriv_on_piece_remembered(t, i+1, n-1, order-1) / (knots[i+n+1] - knots[i+1]);
+	}
+
+	t.deriv[t.index(i, n)] = result;
+	t.have_deriv[t.index(i, n)] = 1;
+	return result;
+}
+
+} //namespace
+
 double
 bspline_on_piece(const double *knots, double x, int i, int n, int piece)
 {
@@ -80,6 +161,11 @@ bspline_on_piece(const double *knots, double x, int i, int n, int piece)
 
 	if (n == 0)
 		return (i == piece ? 1.0 : 0.0);
+
+	if (n > PIECE_PLAIN_ORDER) {
+		piece_tables t(knots, x, piece, i, n);
+		return on_piece_remembered(t, i, n);
+	}
 
 	/* splines whose support does not contain the piece vanish on it */
 	if (piece < i || piece > i+n)
@@ -102,6 +188,11 @@ bspline_deriv_on_piece(const double *knots, double x, int i, int n, unsigned ord
 
 	if (n == 0 || piece < i || piece > i+n)
 		return 0.0;
+
+	if (n > PIECE_PLAIN_ORDER) {
+		piece_tables t(knots, x, piece, i, n);
+		return deriv_on_piece_remembered(t, i, n, order);
+	}
 
 	if (order <= 1) {
 		if (knots[i+n] != knots[i])
